@@ -58,19 +58,32 @@ struct SrvCase {
     payload_comp: Option<Enc>,
     /// the frame carries a zero-length payload (an empty message when flag = 0)
     empty: bool,
+    /// the handler's response metadata carries its own grpc-encoding entry (as a proxy forwarding
+    /// upstream metadata would): what is announced must still be what the frames are compressed with
+    handler_md_encoding: Option<&'static str>,
+    /// a second frame, flagged as compressed, follows the (valid, uncompressed) first one
+    trailing_flagged: bool,
 }
 
 const REQ_MSG: [u8; 6] = [1, 2, 3, 4, 5, 6];
 const RESP_MSG: [u8; 9] = [9, 9, 9, 9, 9, 9, 9, 9, 1];
 
 fn srv_body(c: &SrvCase, ch: &Chooser) -> Outcome {
-    let script = Script { initial_md: vec![], msgs: vec![RESP_MSG.to_vec()], end: None, handler_err: false, bidi: BidiMode::ReadAll, disable_compression: false, exact_hint: false };
+    let initial_md: Md = match c.handler_md_encoding {
+        Some(v) => vec![("grpc-encoding".to_string(), MdVal::Ascii(v.to_string()))],
+        None => vec![],
+    };
+    let script = Script { initial_md, msgs: vec![RESP_MSG.to_vec()], end: None, handler_err: false, bidi: BidiMode::ReadAll, disable_compression: false, exact_hint: false };
     let (mut server, log) = new_server(script, ch, false);
     for e in &c.send {
         server = server.send_compressed(tonic_enc(*e));
     }
     for e in &c.accept {
         server = server.accept_compressed(tonic_enc(*e));
+    }
+    // every other case is served by a clone of the configured server (as the transport does per connection)
+    if (c.send.len() + c.accept.len() + c.flag as usize + c.shape as usize) % 2 == 1 {
+        server = server.clone();
     }
     let payload = if c.empty {
         vec![]
@@ -80,7 +93,10 @@ fn srv_body(c: &SrvCase, ch: &Chooser) -> Outcome {
             None => REQ_MSG.to_vec(),
         }
     };
-    let body = wire::encode_frame(c.flag, &payload);
+    let mut body = wire::encode_frame(c.flag, &payload);
+    if c.trailing_flagged {
+        body.extend(wire::encode_frame(1, &[0x1f, 0x8b, 0x08, 0x00]));
+    }
     let mut b = http::Request::builder()
         .method(http::Method::POST)
         .uri(c.shape.path())
@@ -154,6 +170,19 @@ fn srv_body(c: &SrvCase, ch: &Chooser) -> Outcome {
             }
         }
     };
+    if c.trailing_flagged {
+        // no encoding is negotiated in these cases: the second frame's compressed flag is illegal,
+        // wherever in the request it stands
+        let ok = if c.shape.streams_requests() {
+            log.req_err.as_deref().map(|e| e.contains("code=Internal")).unwrap_or(false)
+        } else {
+            status_hdr.as_deref() == Some("13")
+        };
+        if !ok {
+            o.violate("compressed-flag-without-encoding", format!("a second request frame with flag=1 and no negotiated encoding must be rejected with INTERNAL; grpc-status={:?}, handler saw {:?} / stream error {:?}", status_hdr, log.req_msgs, log.req_err));
+        }
+        return o;
+    }
     match want {
         Want::Unimplemented => {
             if status_hdr.as_deref() != Some("12") || log.calls != 0 {
@@ -272,8 +301,22 @@ fn srv_cases(tier: Tier) -> Vec<SrvCase> {
                 }
                 // accept set varies too: it must not influence the response encoding
                 let accept = subsets[(n + si) % subsets.len()].clone();
-                out.push(SrvCase { shape: *shape, send: send.clone(), accept, offer: offer.clone(), req_encoding: None, flag: 0, payload_comp: None, empty: false });
+                out.push(SrvCase { shape: *shape, send: send.clone(), accept, offer: offer.clone(), req_encoding: None, flag: 0, payload_comp: None, empty: false, handler_md_encoding: None, trailing_flagged: false });
             }
+        }
+    }
+    // handler metadata with a grpc-encoding entry of its own while a response encoding is negotiated
+    for send in [vec![Enc::Gzip], vec![Enc::Zstd, Enc::Deflate]] {
+        for forged in ["identity", "deflate", "gzip"] {
+            for shape in Shape::ALL {
+                out.push(SrvCase { shape, send: send.clone(), accept: vec![], offer: Some(b"gzip,deflate,zstd".to_vec()), req_encoding: None, flag: 0, payload_comp: None, empty: false, handler_md_encoding: Some(forged), trailing_flagged: false });
+            }
+        }
+    }
+    // a flagged frame behind a valid one, no encoding negotiated
+    for accept in [vec![], vec![Enc::Gzip]] {
+        for shape in Shape::ALL {
+            out.push(SrvCase { shape, send: vec![], accept: accept.clone(), offer: None, req_encoding: None, flag: 0, payload_comp: None, empty: false, handler_md_encoding: None, trailing_flagged: true });
         }
     }
     // request acceptance: accept-set x grpc-encoding x (flag, payload)
@@ -288,7 +331,7 @@ fn srv_cases(tier: Tier) -> Vec<SrvCase> {
                     }
                     let send = subsets[(n + si) % subsets.len()].clone();
                     let offer = if n % 3 == 0 { Some(b"gzip,deflate,zstd".to_vec()) } else { None };
-                    out.push(SrvCase { shape: *shape, send, accept: accept.clone(), offer, req_encoding: re.clone(), flag: *flag, payload_comp: *pc, empty: *empty });
+                    out.push(SrvCase { shape: *shape, send, accept: accept.clone(), offer, req_encoding: re.clone(), flag: *flag, payload_comp: *pc, empty: *empty, handler_md_encoding: None, trailing_flagged: false });
                 }
             }
         }
@@ -471,6 +514,10 @@ fn cli_body(c: &CliCase, ch: &Chooser) -> Outcome {
     }
     for e in &c.accept {
         client = client.accept_compressed(tonic_enc(*e));
+    }
+    // every other case makes its calls through a clone of the configured client
+    if (c.accept.len() + c.send.is_some() as usize + c.resp_flag as usize + c.shape as usize) % 2 == 1 {
+        client = client.clone();
     }
     let req_msgs = if c.shape.streams_requests() { vec![REQ_MSG.to_vec(), vec![]] } else { vec![REQ_MSG.to_vec()] };
     if c.refused_first.is_some() {
@@ -664,16 +711,16 @@ pub fn property(tier: Tier) -> Property {
     let srv = Section::new(
         "server",
         Config::default(),
-        "cases: generated server with every ordered subset of {gzip,deflate,zstd} enabled for sending (16) x request grpc-accept-encoding from a menu (absent, empty, identity, unknown tokens, upper-case, obs-text, near-miss tokens, every ordered subset joined with ',' / ', ' / ' ,', with identity / unknown tokens added) x call shape; and every ordered accept subset (16) x request grpc-encoding {absent, identity, gzip, deflate, zstd, GZIP, br, obs-text, empty, ' gzip'} x first frame {flag 0 raw, flag 1 raw, flag 1 compressed with each encoding, flag 0 compressed} x shape (quick: each (set, header) pair with one rotating shape). Oracle: announced response encoding must be in the send set and offered (token match modulo space and ASCII case), flag-1 payloads decompress with it, no announcement => all flags 0; request naming nothing enabled => UNIMPLEMENTED + grpc-accept-encoding == enabled set; flag 1 without negotiated encoding => INTERNAL; well-formed => handler sees the message. Non-trivial = any encoding configured/announced or flag 1.",
+        "cases: generated server with every ordered subset of {gzip,deflate,zstd} enabled for sending (16) x request grpc-accept-encoding from a menu (absent, empty, identity, unknown tokens, upper-case, obs-text, near-miss tokens, every ordered subset joined with ',' / ', ' / ' ,', with identity / unknown tokens added) x call shape; and every ordered accept subset (16) x request grpc-encoding {absent, identity, gzip, deflate, zstd, GZIP, br, obs-text, empty, ' gzip'} x first frame {flag 0 raw, flag 1 raw, flag 1 compressed with each encoding, flag 0 compressed} x shape (quick: each (set, header) pair with one rotating shape); plus handler response metadata that carries a grpc-encoding entry of its own while an encoding is negotiated; plus a second request frame flagged as compressed behind a valid first one with nothing negotiated. Oracle: announced response encoding must be in the send set and offered (token match modulo space and ASCII case), flag-1 payloads decompress with it, no announcement => all flags 0; request naming nothing enabled => UNIMPLEMENTED + grpc-accept-encoding == enabled set; flag 1 without negotiated encoding => INTERNAL; well-formed => handler sees the message. Non-trivial = any encoding configured/announced or flag 1.",
         srv_cases(tier),
-        |c: &SrvCase| format!("{:?} send={{{}}} accept={{{}}} offer={:?} grpc-encoding={:?} flag={} payload_comp={:?} empty={}", c.shape, names(&c.send), names(&c.accept), c.offer.as_ref().map(|v| String::from_utf8_lossy(v).to_string()), c.req_encoding.as_ref().map(|v| String::from_utf8_lossy(v).to_string()), c.flag, c.payload_comp.map(|e| e.name()), c.empty),
+        |c: &SrvCase| format!("{:?} send={{{}}} accept={{{}}} offer={:?} grpc-encoding={:?} flag={} payload_comp={:?} empty={} handler_md_encoding={:?} trailing_flagged={}", c.shape, names(&c.send), names(&c.accept), c.offer.as_ref().map(|v| String::from_utf8_lossy(v).to_string()), c.req_encoding.as_ref().map(|v| String::from_utf8_lossy(v).to_string()), c.flag, c.payload_comp.map(|e| e.name()), c.empty, c.handler_md_encoding, c.trailing_flagged),
         srv_body,
     )
     .mins(1000, 20, 200);
     let cli = Section::new(
         "client",
         Config::default(),
-        "cases: generated client with send_compressed in {none, each} x every ordered accept subset (16) x scripted response (grpc-encoding absent/identity/gzip/deflate/zstd/GZIP/br/obs-text; flag 0/1; payload compressed or not; also as a headers-only response carrying grpc-status 0 / 5 in its headers) with a rotating call shape, plus two-call sequences in which the client, or a clone of it, enables further encodings between the calls, or in which the peer refuses a first call with UNIMPLEMENTED and a grpc-accept-encoding of its own (the next call must still be made exactly as configured); oracle: request grpc-encoding == configured (absent if none) and frames flagged/compressed accordingly, grpc-accept-encoding token set == accept set (+identity) and absent when empty, a response encoding that is not enabled => UNIMPLEMENTED, flag 1 without encoding => INTERNAL, well-formed responses are delivered. Non-trivial = any encoding configured or announced.",
+        "cases: generated client with send_compressed in {none, each} x every ordered accept subset (16) (every other case through a clone of the configured client) x scripted response (grpc-encoding absent/identity/gzip/deflate/zstd/GZIP/br/obs-text; flag 0/1; payload compressed or not; also as a headers-only response carrying grpc-status 0 / 5 in its headers) with a rotating call shape, plus two-call sequences in which the client, or a clone of it, enables further encodings between the calls, or in which the peer refuses a first call with UNIMPLEMENTED and a grpc-accept-encoding of its own (the next call must still be made exactly as configured); oracle: request grpc-encoding == configured (absent if none) and frames flagged/compressed accordingly, grpc-accept-encoding token set == accept set (+identity) and absent when empty, a response encoding that is not enabled => UNIMPLEMENTED, flag 1 without encoding => INTERNAL, well-formed responses are delivered. Non-trivial = any encoding configured or announced.",
         cli_cases(tier),
         |c: &CliCase| format!("{:?} send={:?} accept={{{}}} resp-encoding={:?} flag={} comp={:?} headers_only={:?} then_accept={{{}}} via_clone={} refused_first={:?}", c.shape, c.send.map(|e| e.name()), names(&c.accept), c.resp_encoding.as_ref().map(|v| String::from_utf8_lossy(v).to_string()), c.resp_flag, c.resp_comp.map(|e| e.name()), c.headers_only, names(&c.then_accept), c.then_via_clone, c.refused_first),
         cli_body,
